@@ -131,6 +131,10 @@ def run(ck):
     ck.floor("ENF", "verification-family call sites in scope", tot, 44)
     ck.extra["functions_swept"] = nf
 
+    # zips of statements with proofs need a length check
+    nz = zip_length_sweep(ck, c, re.compile(r"concordium_base::(id::id_verifier|web3id)"), re.compile(r"(verify|verifier|validate|check)[a-z_0-9]*(::\{closure#\d+\})*$"))
+    ck.floor("CMP", "statement/proof zips in presentation verification", nz, 3)
+
     # lookups of commitments: None rejects
     for nm in ("AttributeInRangeStatement", "AttributeInSetStatement", "AttributeNotInSetStatement", "AttributeValueStatement"):
         path = IV + "<impl concordium_base::id::id_proof_types::%s<C, TagType, AttributeType>>::verify" % nm
